@@ -61,6 +61,7 @@ class Ctx(object):
     def __init__(self, mod, part, tier, seed, shard, nshards):
         self.mod = mod
         self.part = part
+        self.part_ix = None
         self.tier = tier
         self.seed = seed
         self.shard = shard
@@ -74,7 +75,7 @@ class Ctx(object):
         return self.deadline is not None and time.time() > self.deadline
 
     def record(self, case, out, distinct=False):
-        self.stats.record(case, out, distinct_by_construction=distinct)
+        self.stats.record(case, out, distinct_by_construction=distinct, part=self.part_ix)
 
 
 def run_task(task):
@@ -84,6 +85,7 @@ def run_task(task):
         mod = load_check(pid)
         part = get_parts(mod, tier)[part_ix]
         ctx = Ctx(mod, part, tier, seed, shard, nshards)
+        ctx.part_ix = part_ix
         oracle = getattr(part, "oracle", None) or getattr(mod, "oracle", None)
         exhaustive = False
         if part.kind == "hyp":
@@ -188,6 +190,38 @@ def write_replay(pid, bucket, failure, mod):
     with open(path, "w") as f:
         json.dump(rec, f, indent=1, sort_keys=True)
     return path
+
+
+def shrink_failure(mod, parts, bucket, failure, seed, budget_s):
+    """Shrink the smallest collected case of a new bucket with Hypothesis (Hyp parts only): the replay file then holds
+    a minimal reproduction. Bounded by examples and wall time; a failed or inconclusive shrink keeps the collected case."""
+    ix = failure.get("part")
+    if ix is None or ix >= len(parts) or parts[ix].kind != "hyp":
+        return
+    part = parts[ix]
+    oracle = getattr(part, "oracle", None) or getattr(mod, "oracle", None)
+    try:
+        import random as _random
+
+        import hypothesis
+        from hypothesis import HealthCheck, settings
+        from .api import case_size
+
+        t0 = time.time()
+
+        def same_bucket(case):
+            if time.time() - t0 > budget_s:
+                return False
+            return any(b == bucket for b, _ in oracle(case).violations)
+
+        st_ = settings(max_examples=3000, database=None, deadline=None, suppress_health_check=list(HealthCheck))
+        best = hypothesis.find(part.strategy(), same_bucket, settings=st_, random=_random.Random(seed))
+        out = oracle(best)
+        msgs = [m for b, m in out.violations if b == bucket]
+        if msgs and case_size(best) <= failure["size"]:
+            failure.update(case=best, message=msgs[0], size=case_size(best), shrunk=True)
+    except Exception as e:  # noqa - NoSuchExample, budget, anything: keep the collected case
+        failure["shrink_note"] = "%s: %s" % (type(e).__name__, str(e)[:100])
 
 
 def write_evidence(mod, pid, tier, seed, stats, wall, nviol, known_lines, extra=None):
@@ -316,6 +350,12 @@ def main(argv=None):
                 line = "KNOWN-FINDING: property=%s %s" % (pid, known[b]["what"])
                 known_lines.append(line)
                 print(line)
+        shrink_budget = float(os.environ.get("VERIF_SHRINK_S", "20" if args.tier == "quick" else "300"))
+        t_shrink = time.time()
+        for b, f in sorted(new.items()):
+            left = shrink_budget - (time.time() - t_shrink)
+            if left > 1:
+                shrink_failure(mod, parts, b, f, seed, left)
         for b, f in sorted(new.items()):
             path = write_replay(pid, b, f, mod)
             print("VIOLATION property=%s replay=%s" % (pid, path))
